@@ -13,18 +13,27 @@
 package main
 
 import (
+	"fmt"
 	"io"
 	"os"
 	"strings"
+	"time"
 
 	"github.com/irai/packet"
 	"github.com/irai/packet/fastlog"
+	"github.com/irai/packet/handlers/dhcp4_spoofer"
+	"github.com/irai/packet/handlers/dns_naming"
+	"github.com/irai/packet/handlers/icmp_spoofer"
 	"pvharness/lib"
 )
 
 func quiet() {
 	fastlog.DefaultIOWriter = io.Discard
 	packet.Logger.SetLevel(fastlog.LevelError)
+	dhcp4_spoofer.Logger.SetLevel(fastlog.LevelError)
+	icmp_spoofer.Logger6.SetLevel(fastlog.LevelError)
+	dns_naming.Logger.SetLevel(fastlog.LevelError)
+	dns_naming.LoggerMDNS.SetLevel(fastlog.LevelError)
 	if dn, err := os.OpenFile(os.DevNull, os.O_WRONLY, 0); err == nil {
 		os.Stdout = dn // handlers print with fmt.Println
 	}
@@ -51,13 +60,31 @@ func runCase(a []string) string {
 	if !ok {
 		return "badargs"
 	}
-	pa, fa := runHistory(ops, true, byte(fill), byte(stp))
-	_, fb := runHistory(ops, false, 0, 0)
-	eq := "T"
-	if fa != fb {
-		eq = "F"
+	// watchdog: some handler loops can spin on inputs they do not expect
+	done := make(chan string, 1)
+	go func() {
+		defer func() {
+			if e := recover(); e != nil {
+				done <- "panic"
+			}
+		}()
+		pa, fa := runHistory(ops, true, byte(fill), byte(stp))
+		_, fb := runHistory(ops, false, 0, 0)
+		eq := "T"
+		if fa != fb {
+			eq = "F"
+			if os.Getenv("C10_DEBUG") != "" {
+				fmt.Fprintf(os.Stderr, "A: %s\nB: %s\n", fa, fb)
+			}
+		}
+		done <- eq + " " + pa
+	}()
+	select {
+	case r := <-done:
+		return r
+	case <-time.After(30 * time.Second):
+		return "fuel"
 	}
-	return eq + " " + pa
 }
 
 func atoi(s string) int {
@@ -72,26 +99,37 @@ func atoi(s string) int {
 }
 
 type op struct {
-	kind  byte // 'p' packet, 'x' purge, 'q' dump
+	kind  byte     // 'p','d','r','n','m','l','b','s' packets; 'x' purge, 'o' offline, 'u' hunt, 'q' dump
 	frame []byte
 	keys  [][]byte
+	f     []string // remaining fields of a packet token (locators / oracle)
 }
 
 func parseOps(toks []string) ([]op, bool) {
 	var ops []op
 	for _, t := range toks {
-		k, arg, _ := strings.Cut(t, ":")
+		fs := strings.Split(t, ":")
+		if len(fs[0]) != 1 {
+			return nil, false
+		}
+		k := fs[0][0]
 		switch k {
-		case "q":
+		case 'q':
 			ops = append(ops, op{kind: 'q'})
-		case "p":
-			ops = append(ops, op{kind: 'p', frame: lib.UnHex(arg)})
-		case "x":
-			o := op{kind: 'x'}
-			for _, h := range strings.Split(arg, ",") {
+		case 'x', 'o', 'u':
+			if len(fs) != 2 {
+				return nil, false
+			}
+			o := op{kind: k}
+			for _, h := range strings.Split(fs[1], ",") {
 				o.keys = append(o.keys, lib.UnHex(h))
 			}
 			ops = append(ops, o)
+		case 'p', 'd', 'r', 'n', 'm', 'l', 'b', 's':
+			if len(fs) < 2 {
+				return nil, false
+			}
+			ops = append(ops, op{kind: k, frame: lib.UnHex(fs[1]), f: fs[2:]})
 		default:
 			return nil, false
 		}
